@@ -107,7 +107,7 @@ func c19(c *core.Check) {
 	autoRangeRule(c, r10)
 	r11 := c.Rule("R11", "a fallback renders the same integer: every restart of renderValue with another style (fallback, decimal) passes on the parameter counterValue itself, never the absolute value taken for the systems that write the sign apart", 12)
 	fallbackValueRule(c, r11)
-	r1 := c.Rule("R1", "every integer / and % of css/counters has a divisor proven non-zero, and every % whose result indexes a list has a dividend proven non-negative (Go's % keeps the sign of the dividend)", 17)
+	r1 := c.Rule("R1", "every integer / and % of css/counters has a divisor proven non-zero, and every % whose result indexes a list has a dividend proven non-negative (Go's % keeps the sign of the dividend)", 16)
 	divisionRule(c, r1, inPkgs("css/counters"))
 	// the sign is accounted for in the padding exactly when it is written: both steps test isNegative && useNegative
 	if rvf := p.Lookup("css/counters.CounterStyle.renderValue"); rvf != nil {
@@ -217,7 +217,7 @@ func c19(c *core.Check) {
 	r2.Cond(nSys >= 5, "symbols() accepts the five systems of CSS Lists", p.Pos(lst.Pos()), fmt.Sprint(nSys), fmt.Sprintf("only %d system names compared in listStyleType_", nSys))
 
 	// ---- R2b dispatch, negative set, automatic ranges
-	r2b := c.Rule("R2b", "renderValue dispatches cyclic→repeating, fixed→nonRepeating, symbolic→symbolic, alphabetic→alphabetic, numeric→numeric, additive→additive; a negative sign is used exactly for symbolic, alphabetic, numeric and additive; the automatic range starts at 1 for alphabetic and symbolic and at 0 for additive", 8)
+	r2b := c.Rule("R2b", "renderValue dispatches cyclic→repeating, fixed→nonRepeating, symbolic→symbolic, alphabetic→alphabetic, numeric→numeric, additive→additive; a negative sign is used exactly for symbolic, alphabetic, numeric and additive; the automatic range starts at 1 for alphabetic and symbolic and at 0 for additive", 7)
 	wantCallee := map[string]string{"cyclic": "repeating", "fixed": "nonRepeating", "symbolic": "symbolic", "alphabetic": "alphabetic", "numeric": "numeric", "additive": "additive"}
 	info := p.InfoOf(rv)
 	for i, cs := range rvSw.Cases {
@@ -300,7 +300,7 @@ func c19(c *core.Check) {
 	}
 
 	// ---- R5 counter-set / counter-increment instances are scoped
-	r5 := c.Rule("R5", "when boxes.UpdateCounters creates a counter instance for counter-set / counter-increment (no instance in scope) it registers the name in the sibling scope, so that the instance is removed when the parent element ends", 3)
+	r5 := c.Rule("R5", "when boxes.UpdateCounters creates a counter instance for counter-set / counter-increment (no instance in scope) it registers the name in the sibling scope, so that the instance is removed when the parent element ends", 1)
 	if uc := p.Fn("html/boxes", "UpdateCounters"); uc != nil {
 		setAdd := p.Method("utils", "Set", "Add")
 		n := 0
@@ -441,7 +441,7 @@ func c19(c *core.Check) {
 // c19Merge: descriptors inherited through `extends` replace only the descriptors the extending style did not set.
 func c19Merge(c *core.Check) {
 	p := c.Prog
-	r := c.Rule("R6", "extends: CounterStyleDescriptors.merge takes a descriptor from the extended style exactly when the extending style did not set it — each `desc.F = src.F` is guarded by a test of the whole field F (its IsNone() when the type has one, a comparison of the field with its zero value otherwise), never of a part of it (range: auto has no list of ranges and is still set)", 8)
+	r := c.Rule("R6", "extends: CounterStyleDescriptors.merge takes a descriptor from the extended style exactly when the extending style did not set it — each `desc.F = src.F` is guarded by a test of the whole field F (its IsNone() when the type has one, a comparison of the field with its zero value otherwise), never of a part of it (range: auto has no list of ranges and is still set)", 7)
 	fn := p.Method("css/counters", "CounterStyleDescriptors", "merge")
 	if fn == nil {
 		r.Anchor("css/counters.(*CounterStyleDescriptors).merge")
@@ -524,7 +524,7 @@ func c19Merge(c *core.Check) {
 // are applied.
 func c19Descriptors(c *core.Check) {
 	p := c.Prog
-	r := c.Rule("R7", "counter plumbing: the two values of `negative` are read in source order (prefix, then suffix); `infinite` is negative infinity as the lower bound of a range and positive infinity as the upper bound; UpdateCounters applies counter-reset, then counter-increment, then counter-set (CSS Lists 3 §4); the `value` attribute hint belongs to the li element", 5)
+	r := c.Rule("R7", "counter plumbing: the two values of `negative` are read in source order (prefix, then suffix); `infinite` is negative infinity as the lower bound of a range and positive infinity as the upper bound; UpdateCounters applies counter-reset, then counter-increment, then counter-set (CSS Lists 3 §4); the `value` attribute hint belongs to the li element", 4)
 	// negative: tokens read from the front
 	if fn := p.Fn("css/validation", "negative"); fn == nil {
 		r.Anchor("css/validation.negative")
@@ -916,7 +916,7 @@ func c19RangeAuto(c *core.Check) {
 // (utf8.RuneCountInString), never with len, which counts bytes ("٠٥" is two characters and four bytes).
 func c19PadCharacters(c *core.Check) {
 	p := c.Prog
-	r := c.Rule("R13", "the pad length counts characters: in renderValue no byte length of a string (builtin len) enters the number of pad symbols added; the representation, the negative prefix and the suffix are measured with utf8.RuneCountInString", 3)
+	r := c.Rule("R13", "the pad length counts characters: in renderValue no byte length of a string (builtin len) enters the number of pad symbols added; the representation, the negative prefix and the suffix are measured with utf8.RuneCountInString", 1)
 	fn := p.Method("css/counters", "CounterStyle", "renderValue")
 	if fn == nil {
 		r.Anchor("css/counters.CounterStyle.renderValue")
